@@ -8,6 +8,9 @@ package subgroup_info
 //@ define psWF(ps *PodSet) bool = ps != nil && ps.podInfos != nil && ps.podStatusMap != nil && ps.podStatusIndex != nil && (forall s in ps.podStatusIndex :: ps.podStatusIndex[s] != nil && allocated(ps.podStatusIndex[s]) && ps.podStatusIndex[s] != ps.podInfos) && (forall s1 in ps.podStatusIndex :: forall s2 in ps.podStatusIndex :: s1 != s2 ==> ps.podStatusIndex[s1] != ps.podStatusIndex[s2])
 
 // 0/1 indicator of a status class (classes are pinned down by the pod_status contracts)
+// C14 "pod counts per status, gang counters ... equal the value recomputed from scratch from the pods and their statuses":
+// the three gang counters of a pod set are the RECOUNT over the recorded statuses (closed form, finite sums).
+//@ define psCounted(ps *PodSet) bool = ps.numActiveAllocatedTasks == (sum k in ps.podStatusMap :: inAA(ps.podStatusMap[k])) && ps.numActiveUsedTasks == (sum k in ps.podStatusMap :: inAU(ps.podStatusMap[k])) && ps.numAliveTasks == (sum k in ps.podStatusMap :: inAlive(ps.podStatusMap[k]))
 //@ define inAA(s int) int = ite(pod_status.IsActiveAllocatedStatus(s), 1, 0)
 //@ define inAU(s int) int = ite(pod_status.IsActiveUsedStatus(s), 1, 0)
 //@ define inAlive(s int) int = ite(pod_status.IsAliveStatus(s), 1, 0)
@@ -23,6 +26,7 @@ package subgroup_info
 //@   ensures [au] ps.numActiveUsedTasks == old(ps.numActiveUsedTasks) - old(ite(ti.UID in ps.podStatusMap, inAU(ps.podStatusMap[ti.UID]), 0))
 //@   ensures [alive] ps.numAliveTasks == old(ps.numAliveTasks) - old(ite(ti.UID in ps.podStatusMap, inAlive(ps.podStatusMap[ti.UID]), 0))
 //@   ensures [gone] !(ti.UID in ps.podStatusMap)
+//@   ensures [recount] old(psCounted(ps)) ==> psCounted(ps)
 //@   ensures [goneIdx] old(ti.UID in ps.podStatusMap) ==> !(ti.UID in ps.podInfos) && !(ti.UID in ps.podStatusIndex[old(ps.podStatusMap[ti.UID])])
 //@   ensures psWF(ps)
 //@ end
@@ -41,6 +45,7 @@ package subgroup_info
 //@   ensures [index] ti.Status in ps.podStatusIndex && ti.UID in ps.podStatusIndex[ti.Status] && ps.podStatusIndex[ti.Status][ti.UID] == ti
 //@   ensures [moved] old(ti.UID in ps.podStatusMap && ps.podStatusMap[ti.UID] != ti.Status) ==> !(ti.UID in ps.podStatusIndex[old(ps.podStatusMap[ti.UID])])
 //@   ensures [sig] ps.schedulingConstraintsSignature == ""
+//@   ensures [recount] old(psCounted(ps)) ==> psCounted(ps)
 //@   ensures psWF(ps)
 //@ end
 
@@ -51,6 +56,7 @@ package subgroup_info
 //@   ensures result.minAvailable == minAvailable && result.name == name && result.parent == nil && result.topologyConstraint == topologyConstraint
 //@   ensures result.numActiveAllocatedTasks == 0 && result.numActiveUsedTasks == 0 && result.numAliveTasks == 0
 //@   ensures len(result.podInfos) == 0 && len(result.podStatusMap) == 0 && len(result.podStatusIndex) == 0
+//@   ensures [recount] psCounted(result)
 //@ end
 
 // C03 (DESIGN): IsReadyForScheduling <==> alive - gated >= min.
